@@ -179,6 +179,8 @@ def run_task(task):
         sub = subs[subname]
         _setup_worker(sub.jax)
         budget = sub.budget_quick if tier == "quick" else sub.budget_thorough
+        # a shared / overloaded machine can be compensated for (never needed on an idle one)
+        budget *= float(os.environ.get("VERIF_BUDGET_SCALE", "1") or 1)
         stats = _Stats(sub, budget)
         hseed = mix(seed, pid, subname, shard)
         if sub.strategy is not None:
